@@ -98,8 +98,8 @@ POOLS = {
     ],
     "xsi": [
         op_fetch(0, None, "{urn:a}Ext"), op_fetch(1, "urn:p", "{urn:a}Ext"), op_q("find_types", "{urn:a}Ext"),
-        op_q("find_type", "{urn:a}Nope"), op_q("find_type", XS + "string"), op_sub(8, "{urn:a}Ext"),
-        op_build(7), op_fetch(8, "urn:a", "{urn:a}Base"), op_fields(["x", "y"]),
+        op_q("find_type", "{urn:a}Nope"), op_build(8, "urn:p"), op_sub(8, "{urn:a}Ext"),
+        op_build(7), op_fetch(1, "urn:p", "Deep"), op_fields(["x", "y"]),
     ],
     "bad": [
         op_fields(["x"]), op_fields(["x", "y"]), op_q("find_types", "{urn:a}T"), op_lnm(["x"], 0), op_lnm(["x"], 3),
@@ -219,9 +219,9 @@ def rand_steps(rng, universe, keys, length):
     """A world sequence: usually everything loaded from the start; sometimes
     classes appear over time, with or without a change of len(sys.modules)."""
     n = len(universe)
-    mode = rng.choice(["fixed", "fixed", "grow", "grow-unstamped", "wobble"])
+    mode = rng.choice(["fixed", "fixed", "grow", "grow-unstamped", "wobble", "shrink"])
     loaded = n if mode == "fixed" else rng.randint(0, n)
-    mods = 0
+    mods = n if mode == "shrink" else 0
     steps = []
     for _ in range(length):
         if mode != "fixed" and rng.random() < 0.4:
@@ -229,6 +229,11 @@ def rand_steps(rng, universe, keys, length):
                 if loaded < n:
                     loaded += 1
                     mods += 1
+            elif mode == "shrink":
+                # a module is dropped from sys.modules while a class is defined
+                if loaded < n and mods > 0:
+                    loaded += 1
+                    mods -= 1
             elif mode == "grow-unstamped":
                 if loaded < n:
                     loaded += 1
